@@ -458,7 +458,16 @@ struct SepCo {
 };
 
 typedef std::shared_ptr<SepCo> SepCo_SP;
-typedef std::set<SepCo_SP> SepCoSet;
+
+//! Orders SepCos by what they say (dimension, IDs of the left and right Nodes, gap,
+//! exactness) rather than by pointer value, so that iteration over a SepCoSet -- and
+//! hence the order of generated constraints, and the order of summation of violations
+//! -- does not depend on where the SepCos happened to be allocated. The pointer value
+//! is used only to keep distinct SepCos that say exactly the same thing.
+struct CmpSepCosByContent {
+    bool operator()(const SepCo_SP &lhs, const SepCo_SP &rhs) const;
+};
+typedef std::set<SepCo_SP, CmpSepCosByContent> SepCoSet;
 typedef std::vector<SepCoSet> SepCoSets;
 
 //! A Projection represents a set of constraints (given by SepCos), together
